@@ -180,6 +180,9 @@ def execute(req):
         fin.append(ok)
     out.update(status="ok", nc=nc.tolist(), finite=fin, etot=[float(x) for x in sp.to_np(molecule.Etot)],
                qsum=[float(sp.to_np(molecule.q)[i, : nat[i]].sum()) for i in range(len(mols))])  # fmt: skip
+    ce = getattr(molecule, "cis_energies", None)
+    if torch.is_tensor(ce):
+        out["cis"] = [[float(x) for x in row] for row in sp.to_np(ce)]
     # consistency twins of a request outside the listed preconditions that was ACCEPTED: the same request with the
     # doubtful setting replaced by a valid one ("twin": the numbers must agree), and every molecule of the batch alone
     # ("alone": acceptance must not depend on the batch mates)
@@ -370,6 +373,12 @@ def negative_lattice(tier, seed):
         for sb in (0, 1):
             reqs.append(_req("unlisted", "record", "AM1", [{"name": "H2O"}, {"name": "NH3"}], seed, fault=f"converger id {cid} scf_backward={sb}",
                              extra={"scf_converger": cid, "scf_backward": sb}, twin={"scf_converger": [1]}, eps=1e-8))  # fmt: skip
+    # identical species rows with different charges (different numbers of occupied orbitals) in the homogeneous excited-state path
+    for charges in ([0, 0, 2], [2, 0, 0], [0, 2], [-2, 0]):
+        for meth in ("cis", "rpa"):
+            reqs.append(_req("unlisted", "record", "AM1", [{"name": "H2CO", "charge": c, "mult": 1} for c in charges], seed,
+                             fault=f"{meth} on identical species with charges {charges}", extra={"excited_states": {"n_states": 2, "method": meth}},
+                             alone=True, energy_only=True))  # fmt: skip
     for batch in (["CH4", "HF"], ["HF", "CH4"], ["H2CO", "LiH"] if False else ["H2CO", "HF"], ["HF", "H2O", "CH4"]):
         for n in (5, 8, 16):
             reqs.append(_req("unlisted", "record", "AM1", [{"name": b} for b in batch], seed, fault=f"n_states={n} in a mixed batch with HF (4 single excitations)",
@@ -514,6 +523,20 @@ def evaluate(chk, r, out, stats):
         if rej:
             chk.violation(_desc(r, "accepted_in_batch_rejected_alone", out),
                           f"{k}: the batch request was accepted although molecules {rej} alone are refused with it ({al[rej[0]].get('msg')})", replay=r)  # fmt: skip
+        else:
+            # accepted both ways: what the batch reports for a molecule is what the molecule reports alone
+            for i, o in enumerate(al):
+                if o.get("status") != "ok" or out["nc"][i] or o["nc"][0]:
+                    continue
+                bad = not abs(out["etot"][i] - o["etot"][0]) <= 1e-5
+                if not bad and out.get("cis") and o.get("cis"):
+                    a_, b_ = out["cis"][i], o["cis"][0]
+                    m_ = min(len(a_), len(b_))
+                    bad = any(not abs(x - y) <= 1e-4 for x, y in zip(a_[:m_], b_[:m_]))
+                if bad:
+                    chk.violation(_desc(r, "accepted_in_batch_differs_from_alone", out),
+                                  f"{k}: molecule {i} in the accepted batch: Etot {out['etot'][i]:.6f} eV, excitation energies {out.get('cis', [None] * (i + 1))[i]}; alone: {o['etot'][0]:.6f} eV, {o.get('cis', [None])[0]}", replay=r)  # fmt: skip
+                    break
     if unflagged:
         chk.violation(_desc(r, "nonfinite_unflagged", out), f"{k}: molecules {unflagged} have non-finite results without a notconverged flag", replay=r)
 
